@@ -3,6 +3,7 @@ import json
 import os
 import random
 import sqlite3
+import time
 
 from common import gZ, glist
 
@@ -25,7 +26,11 @@ def gen_case(rng, opts=None):
                 ops.append(("send",))
                 sent += 1
         elif r < 0.55:
-            ops.append(("age", rng.choice([0.31, 0.62, 1.13, 2.54])))
+            if rng.random() < opts.get("p_back", 0.25) and sent:
+                # the producer's clock steps back: the next events are stamped older than the stored ones
+                ops.append(("back", rng.choice([0.57, 1.39, 2.71])))
+            else:
+                ops.append(("age", rng.choice([0.31, 0.62, 1.13, 2.54])))
         elif r < 0.75:
             o = rng.choice([1, sent, sent + 1, sent + 2, rng.randint(0, sent + 3), rng.randint(1, max(1, sent))])
             ops.append(("seek", o))
@@ -59,13 +64,18 @@ def run_case(case, workdir):
     sent_json = []
     obs = []
     truth = []
+    purges = []
     for op in case["ops"]:
         kind = op[0]
         if kind == "open":
             if prod is not None:
                 prod.close()
+            before = sql_rows(uri)
             prod = prod_mod.SqliteProducerPlugin({"uri": uri, "retention_in_days": op[1]})
+            t_open = time.time()
             prod.open()
+            after = sql_rows(uri)
+            purges.append(([(i, int(round((t_open - ts) / DAY * 100))) for (i, ts) in before], [i for (i, ts) in after]))
             obs.append(("none",))
         elif kind == "send":
             k = len(sent_json) + 1
@@ -77,6 +87,13 @@ def run_case(case, workdir):
         elif kind == "age":
             db = sqlite3.connect(uri)
             db.execute("UPDATE hermesmessages SET timestamp = timestamp - ?", (op[1] * DAY,))
+            db.commit()
+            db.close()
+            obs.append(("none",))
+        elif kind == "back":
+            # equivalent to the clock stepping back by op[1] days: every stored event becomes that much younger
+            db = sqlite3.connect(uri)
+            db.execute("UPDATE hermesmessages SET timestamp = timestamp + ?", (op[1] * DAY,))
             db.commit()
             db.close()
             obs.append(("none",))
@@ -117,7 +134,20 @@ def run_case(case, workdir):
     cons.close()
     H.rmtree(workdir)
     obs.append(("truth", truth))
+    obs.append(("purges", purges))
     return obs
+
+
+def sql_rows(uri):
+    if not os.path.exists(uri):
+        return []
+    db = sqlite3.connect(uri)
+    try:
+        return [(r[0], r[1]) for r in db.execute("SELECT msgid, timestamp FROM hermesmessages ORDER BY msgid")]
+    except sqlite3.Error:
+        return []
+    finally:
+        db.close()
 
 
 def ident(ev):
@@ -139,16 +169,21 @@ def case_to_gallina(case, obs):
             ops.append(f"(BSend {gZ(nsent)})")
         elif k == "age":
             ops.append(f"(BAge {gZ(int(round(op[1] * 100)))})")
+        elif k == "back":
+            ops.append(f"(BBack {gZ(int(round(op[1] * 100)))})")
         elif k == "seek":
             ops.append(f"(BSeek {gZ(op[1])})")
         elif k == "seekbegin":
             ops.append("BSeekBegin")
         else:
             ops.append("BIter")
-    truth = []
+    truth, purges = [], []
     for ob in obs:
         if ob[0] == "truth":
             truth = ob[1]
+            continue
+        if ob[0] == "purges":
+            purges = ob[1]
             continue
         if ob[0] == "none":
             outs.append("ONone")
@@ -156,4 +191,5 @@ def case_to_gallina(case, obs):
             outs.append({"ok": "(OSeek SeekOk)", "index": "(OSeek SeekIndexError)", "invalid": "(OSeek SeekInvalid)"}[ob[1]])
         else:
             outs.append("(OIter " + glist(f"({gZ(o)},{gZ(p)})" for o, p in ob[1]) + ")")
-    return f"(BCase {glist(ops)} {glist(outs)} " + glist(f"({gZ(a)},{gZ(b)})" for a, b in truth) + ")"
+    gp = glist("(" + glist(f"({gZ(i)},{gZ(a)})" for i, a in b) + "," + glist(gZ(i) for i in a2) + ")" for b, a2 in purges)
+    return f"(BCase {glist(ops)} {glist(outs)} " + glist(f"({gZ(a)},{gZ(b)})" for a, b in truth) + f" {gp})"
